@@ -661,7 +661,12 @@ func (e *itArr) itLoadedRound(k int) {
 	ld := loadedIDs(fresh)
 	var got []hx.TV
 	bad := false
-	err = a2.IterateReadOnlyLoadedValues(collectTV(&got, &bad))
+	var pan string
+	err, pan = guardedRead(func() error { return a2.IterateReadOnlyLoadedValues(collectTV(&got, &bad)) })
+	if pan != "" {
+		e.violation("*", fmt.Sprintf("IterateReadOnlyLoadedValues PANICKED on an array with the loaded slabs %s: %s", idList(ld), pan))
+		return
+	}
 	e.w.L("IT arr h=0 kind=loaded ld=%s", idList(ld))
 	e.st.Hit(fmt.Sprintf("arr:loaded:mode%d", mode))
 	if err != nil {
@@ -1279,13 +1284,20 @@ func (e *itMap) itLoadedRound(k int, mk func() atree.DigesterBuilder) {
 	ld := loadedIDs(fresh)
 	var got []kvTV
 	bad := false
-	err = m2.IterateReadOnlyLoadedValues(func(k, v atree.Value) (bool, error) {
-		kt, ok1 := k.(hx.TV)
-		vt, ok2 := v.(hx.TV)
-		bad = bad || !ok1 || !ok2
-		got = append(got, kvTV{kt, vt})
-		return true, nil
+	var pan string
+	err, pan = guardedRead(func() error {
+		return m2.IterateReadOnlyLoadedValues(func(k, v atree.Value) (bool, error) {
+			kt, ok1 := k.(hx.TV)
+			vt, ok2 := v.(hx.TV)
+			bad = bad || !ok1 || !ok2
+			got = append(got, kvTV{kt, vt})
+			return true, nil
+		})
 	})
+	if pan != "" {
+		e.violation("*", fmt.Sprintf("IterateReadOnlyLoadedValues PANICKED on a map with the loaded slabs %s: %s", idList(ld), pan))
+		return
+	}
 	e.w.L("IT map h=0 kind=loaded ld=%s", idList(ld))
 	e.st.Hit(fmt.Sprintf("map:loaded:mode%d", mode))
 	if err != nil {
